@@ -10,10 +10,13 @@
 #define __CPROVER_frees(...)
 #define __CPROVER_loop_invariant(x)
 #define __CPROVER_decreases(x)
+#ifndef VERIF_REPLAY
 #define __CPROVER_assert(c, m) ((void)0)
 #define __CPROVER_assume(c) ((void)0)
 #endif
+#else
 typedef unsigned long size_t;
+#endif
 #ifdef VERIF_CBMC
 /* same floating-point value: identical bits, or both NaN */
 #define FEQ(x, y) (__CPROVER_equal(x, y) || ((x) != (x) && (y) != (y)))
@@ -60,18 +63,20 @@ static inline long long verif_abs_ll(long long x) { return x < 0 ? -x : x; }
 /* scalar arithmetic as uninterpreted functions (units with opts uf_arith / uf_float): a sound abstraction --
  * what is proved for every interpretation of these symbols holds for the machine operations */
 #ifdef VERIF_CBMC
+static inline unsigned verif_bits_f32(float x) { union { float f; unsigned u; } v; v.f = x; return v.u; }
+static inline unsigned long verif_bits_f64(double x) { union { double f; unsigned long u; } v; v.f = x; return v.u; }
 int __CPROVER_uninterpreted_add_i32(int, int);
-#define verif_add_i32(a, b) __CPROVER_uninterpreted_add_i32(a, b)
+static inline int verif_add_i32(int a, int b) { _Bool k__ = (a <= b); return __CPROVER_uninterpreted_add_i32(k__ ? a : b, k__ ? b : a); }
 unsigned int __CPROVER_uninterpreted_add_u32(unsigned int, unsigned int);
-#define verif_add_u32(a, b) __CPROVER_uninterpreted_add_u32(a, b)
+static inline unsigned int verif_add_u32(unsigned int a, unsigned int b) { _Bool k__ = (a <= b); return __CPROVER_uninterpreted_add_u32(k__ ? a : b, k__ ? b : a); }
 long __CPROVER_uninterpreted_add_i64(long, long);
-#define verif_add_i64(a, b) __CPROVER_uninterpreted_add_i64(a, b)
+static inline long verif_add_i64(long a, long b) { _Bool k__ = (a <= b); return __CPROVER_uninterpreted_add_i64(k__ ? a : b, k__ ? b : a); }
 unsigned long __CPROVER_uninterpreted_add_u64(unsigned long, unsigned long);
-#define verif_add_u64(a, b) __CPROVER_uninterpreted_add_u64(a, b)
+static inline unsigned long verif_add_u64(unsigned long a, unsigned long b) { _Bool k__ = (a <= b); return __CPROVER_uninterpreted_add_u64(k__ ? a : b, k__ ? b : a); }
 float __CPROVER_uninterpreted_add_f32(float, float);
-#define verif_add_f32(a, b) __CPROVER_uninterpreted_add_f32(a, b)
+static inline float verif_add_f32(float a, float b) { _Bool k__ = (verif_bits_f32(a) <= verif_bits_f32(b)); return __CPROVER_uninterpreted_add_f32(k__ ? a : b, k__ ? b : a); }
 double __CPROVER_uninterpreted_add_f64(double, double);
-#define verif_add_f64(a, b) __CPROVER_uninterpreted_add_f64(a, b)
+static inline double verif_add_f64(double a, double b) { _Bool k__ = (verif_bits_f64(a) <= verif_bits_f64(b)); return __CPROVER_uninterpreted_add_f64(k__ ? a : b, k__ ? b : a); }
 int __CPROVER_uninterpreted_sub_i32(int, int);
 #define verif_sub_i32(a, b) __CPROVER_uninterpreted_sub_i32(a, b)
 unsigned int __CPROVER_uninterpreted_sub_u32(unsigned int, unsigned int);
@@ -85,17 +90,17 @@ float __CPROVER_uninterpreted_sub_f32(float, float);
 double __CPROVER_uninterpreted_sub_f64(double, double);
 #define verif_sub_f64(a, b) __CPROVER_uninterpreted_sub_f64(a, b)
 int __CPROVER_uninterpreted_mul_i32(int, int);
-#define verif_mul_i32(a, b) __CPROVER_uninterpreted_mul_i32(a, b)
+static inline int verif_mul_i32(int a, int b) { _Bool k__ = (a <= b); return __CPROVER_uninterpreted_mul_i32(k__ ? a : b, k__ ? b : a); }
 unsigned int __CPROVER_uninterpreted_mul_u32(unsigned int, unsigned int);
-#define verif_mul_u32(a, b) __CPROVER_uninterpreted_mul_u32(a, b)
+static inline unsigned int verif_mul_u32(unsigned int a, unsigned int b) { _Bool k__ = (a <= b); return __CPROVER_uninterpreted_mul_u32(k__ ? a : b, k__ ? b : a); }
 long __CPROVER_uninterpreted_mul_i64(long, long);
-#define verif_mul_i64(a, b) __CPROVER_uninterpreted_mul_i64(a, b)
+static inline long verif_mul_i64(long a, long b) { _Bool k__ = (a <= b); return __CPROVER_uninterpreted_mul_i64(k__ ? a : b, k__ ? b : a); }
 unsigned long __CPROVER_uninterpreted_mul_u64(unsigned long, unsigned long);
-#define verif_mul_u64(a, b) __CPROVER_uninterpreted_mul_u64(a, b)
+static inline unsigned long verif_mul_u64(unsigned long a, unsigned long b) { _Bool k__ = (a <= b); return __CPROVER_uninterpreted_mul_u64(k__ ? a : b, k__ ? b : a); }
 float __CPROVER_uninterpreted_mul_f32(float, float);
-#define verif_mul_f32(a, b) __CPROVER_uninterpreted_mul_f32(a, b)
+static inline float verif_mul_f32(float a, float b) { _Bool k__ = (verif_bits_f32(a) <= verif_bits_f32(b)); return __CPROVER_uninterpreted_mul_f32(k__ ? a : b, k__ ? b : a); }
 double __CPROVER_uninterpreted_mul_f64(double, double);
-#define verif_mul_f64(a, b) __CPROVER_uninterpreted_mul_f64(a, b)
+static inline double verif_mul_f64(double a, double b) { _Bool k__ = (verif_bits_f64(a) <= verif_bits_f64(b)); return __CPROVER_uninterpreted_mul_f64(k__ ? a : b, k__ ? b : a); }
 int __CPROVER_uninterpreted_div_i32(int, int);
 #define verif_div_i32(a, b) __CPROVER_uninterpreted_div_i32(a, b)
 unsigned int __CPROVER_uninterpreted_div_u32(unsigned int, unsigned int);
@@ -147,26 +152,110 @@ unsigned long __CPROVER_uninterpreted_mod_u64(unsigned long, unsigned long);
 #define verif_mod_u64(a, b) ((unsigned long)((unsigned long)(a) % (unsigned long)(b)))
 #endif
 
-/* libm: uninterpreted, assumed contracts only */
-float verif_sqrtf(float x);
-double verif_sqrt(double x);
-float verif_sinf(float x);
-double verif_sin(double x);
-float verif_cosf(float x);
-double verif_cos(double x);
-float verif_tanf(float x);
-double verif_tan(double x);
-float verif_acosf(float x);
-double verif_acos(double x);
-float verif_powf(float x, float y);
-double verif_pow(double x, double y);
-float verif_roundf(float x);
-double verif_round(double x);
-float verif_floorf(float x);
-double verif_floor(double x);
-float verif_fmodf(float x, float y);
-double verif_fmod(double x, double y);
+/* libm: uninterpreted function symbols under CBMC (assumed: deterministic functions of their arguments, nothing else);
+ * round/floor/ceil/trunc use CBMC's own C-library models */
+#ifdef VERIF_CBMC
+float __CPROVER_uninterpreted_sqrtf(float);
+#define verif_sqrtf(x) __CPROVER_uninterpreted_sqrtf(x)
+double __CPROVER_uninterpreted_sqrt(double);
+#define verif_sqrt(x) __CPROVER_uninterpreted_sqrt(x)
+float __CPROVER_uninterpreted_sinf(float);
+#define verif_sinf(x) __CPROVER_uninterpreted_sinf(x)
+double __CPROVER_uninterpreted_sin(double);
+#define verif_sin(x) __CPROVER_uninterpreted_sin(x)
+float __CPROVER_uninterpreted_cosf(float);
+#define verif_cosf(x) __CPROVER_uninterpreted_cosf(x)
+double __CPROVER_uninterpreted_cos(double);
+#define verif_cos(x) __CPROVER_uninterpreted_cos(x)
+float __CPROVER_uninterpreted_tanf(float);
+#define verif_tanf(x) __CPROVER_uninterpreted_tanf(x)
+double __CPROVER_uninterpreted_tan(double);
+#define verif_tan(x) __CPROVER_uninterpreted_tan(x)
+float __CPROVER_uninterpreted_acosf(float);
+#define verif_acosf(x) __CPROVER_uninterpreted_acosf(x)
+double __CPROVER_uninterpreted_acos(double);
+#define verif_acos(x) __CPROVER_uninterpreted_acos(x)
+float __CPROVER_uninterpreted_asinf(float);
+#define verif_asinf(x) __CPROVER_uninterpreted_asinf(x)
+double __CPROVER_uninterpreted_asin(double);
+#define verif_asin(x) __CPROVER_uninterpreted_asin(x)
+float __CPROVER_uninterpreted_atanf(float);
+#define verif_atanf(x) __CPROVER_uninterpreted_atanf(x)
+double __CPROVER_uninterpreted_atan(double);
+#define verif_atan(x) __CPROVER_uninterpreted_atan(x)
+float __CPROVER_uninterpreted_expf(float);
+#define verif_expf(x) __CPROVER_uninterpreted_expf(x)
+double __CPROVER_uninterpreted_exp(double);
+#define verif_exp(x) __CPROVER_uninterpreted_exp(x)
+float __CPROVER_uninterpreted_logf(float);
+#define verif_logf(x) __CPROVER_uninterpreted_logf(x)
+double __CPROVER_uninterpreted_log(double);
+#define verif_log(x) __CPROVER_uninterpreted_log(x)
+float __CPROVER_uninterpreted_powf(float, float);
+#define verif_powf(x, y) __CPROVER_uninterpreted_powf(x, y)
+double __CPROVER_uninterpreted_pow(double, double);
+#define verif_pow(x, y) __CPROVER_uninterpreted_pow(x, y)
+float __CPROVER_uninterpreted_fmodf(float, float);
+#define verif_fmodf(x, y) __CPROVER_uninterpreted_fmodf(x, y)
+double __CPROVER_uninterpreted_fmod(double, double);
+#define verif_fmod(x, y) __CPROVER_uninterpreted_fmod(x, y)
+float __CPROVER_uninterpreted_atan2f(float, float);
+#define verif_atan2f(x, y) __CPROVER_uninterpreted_atan2f(x, y)
+double __CPROVER_uninterpreted_atan2(double, double);
+#define verif_atan2(x, y) __CPROVER_uninterpreted_atan2(x, y)
+float roundf(float);
+double round(double);
+#define verif_roundf(x) roundf(x)
+#define verif_round(x) round(x)
+float floorf(float);
+double floor(double);
+#define verif_floorf(x) floorf(x)
+#define verif_floor(x) floor(x)
+float ceilf(float);
+double ceil(double);
+#define verif_ceilf(x) ceilf(x)
+#define verif_ceil(x) ceil(x)
+float truncf(float);
+double trunc(double);
+#define verif_truncf(x) truncf(x)
+#define verif_trunc(x) trunc(x)
+#else
+#define verif_sqrtf(x) __builtin_sqrtf(x)
+#define verif_sqrt(x) __builtin_sqrt(x)
+#define verif_sinf(x) __builtin_sinf(x)
+#define verif_sin(x) __builtin_sin(x)
+#define verif_cosf(x) __builtin_cosf(x)
+#define verif_cos(x) __builtin_cos(x)
+#define verif_tanf(x) __builtin_tanf(x)
+#define verif_tan(x) __builtin_tan(x)
+#define verif_acosf(x) __builtin_acosf(x)
+#define verif_acos(x) __builtin_acos(x)
+#define verif_asinf(x) __builtin_asinf(x)
+#define verif_asin(x) __builtin_asin(x)
+#define verif_atanf(x) __builtin_atanf(x)
+#define verif_atan(x) __builtin_atan(x)
+#define verif_expf(x) __builtin_expf(x)
+#define verif_exp(x) __builtin_exp(x)
+#define verif_logf(x) __builtin_logf(x)
+#define verif_log(x) __builtin_log(x)
+#define verif_roundf(x) __builtin_roundf(x)
+#define verif_round(x) __builtin_round(x)
+#define verif_floorf(x) __builtin_floorf(x)
+#define verif_floor(x) __builtin_floor(x)
+#define verif_ceilf(x) __builtin_ceilf(x)
+#define verif_ceil(x) __builtin_ceil(x)
+#define verif_truncf(x) __builtin_truncf(x)
+#define verif_trunc(x) __builtin_trunc(x)
+#define verif_powf(x, y) __builtin_powf(x, y)
+#define verif_pow(x, y) __builtin_pow(x, y)
+#define verif_fmodf(x, y) __builtin_fmodf(x, y)
+#define verif_fmod(x, y) __builtin_fmod(x, y)
+#define verif_atan2f(x, y) __builtin_atan2f(x, y)
+#define verif_atan2(x, y) __builtin_atan2(x, y)
+#endif
 
 /* exceptions: class tag of the exception in flight (0 = none) */
+#ifndef VERIF_REPLAY
 extern int __verif_exc;
+#endif
 #endif
